@@ -820,3 +820,63 @@ class FuncRecorder:
 
     def __exit__(self, *a):
         sys.setprofile(None)
+
+
+class SOpaque(SReal):
+    """A real-valued result whose ordering is deliberately undefined (comparisons raise TypeError, an ordinary
+    Exception): used for uninterpreted metric values so that code which merely *transports* the value works,
+    while eager min/max aggregations fail fast instead of forking over all orderings."""
+
+    __slots__ = ()
+
+    def _no(self, *a):
+        raise TypeError("ordering of an uninterpreted metric value is undefined")
+
+    __lt__ = __le__ = __gt__ = __ge__ = _no
+
+    def __bool__(self):
+        raise TypeError("truth value of an uninterpreted metric value is undefined")
+
+    def _bin(self, o, f, nf):
+        r = SNum._bin(self, o, f, nf)
+        return SOpaque(r.e) if isinstance(r, SNum) else r
+
+    def _rbin(self, o, f, nf):
+        r = SNum._rbin(self, o, f, nf)
+        return SOpaque(r.e) if isinstance(r, SNum) else r
+
+    def __abs__(self):
+        return SOpaque(z3.If(self.e >= 0, self.e, -self.e))
+
+    def __neg__(self):
+        return SOpaque(-self.e)
+
+    def __truediv__(self, o):
+        raise TypeError("division of an uninterpreted metric value")
+
+    __rtruediv__ = __truediv__
+
+    def __eq__(self, o):
+        return self is o
+
+    def __ne__(self, o):
+        return self is not o
+
+    __hash__ = SNum.__hash__
+
+
+numbers.Real.register(SOpaque)
+
+
+def rgs(n, maxlev):
+    """restricted-growth strings of length n with at most maxlev distinct levels (canonical group assignments)"""
+    def rec(prefix, mx):
+        if len(prefix) == n:
+            yield tuple(prefix)
+            return
+        for v in range(min(mx + 1, maxlev - 1) + 1):
+            yield from rec(prefix + [v], max(mx, v))
+    if n == 0:
+        yield ()
+        return
+    yield from rec([0], 0)
